@@ -460,7 +460,7 @@ impl Property for C01 {
         sweep(tier, st)
     }
     fn rule() -> String {
-        "generated: (type from the 58-type registry incl. f32, static/dynamic vector, nested; function from the 29 elementary functions; real part from per-function strata incl. negative, tiny, large (atan2: 10% on an axis, 10% on a diagonal |y| = |x|; sin, cos, sin_cos, tan: one in seven at a multiple of pi/4 plus 0..1.5e-9); every derivative part from a mixture 0/+-1/dyadic/uniform/log-uniform; optional parts absent 25%, explicit zeros 10%). Oracle: the function applied in the independent group-nilsquare reference algebra with power-series recurrences, tolerance 32*u*e per part with e the running first-order rounding bound (summed magnitude of contributing terms). One case in ten takes the real part from the wide-magnitude stratum |x| = 10^e, e uniform in +-300/(d+1) (f32: +-36/(d+1)), d the total order of the type (2d+1 for nested types), where every true derivative is representable; one unary case in four is a pure first-order seed (all operand parts of order >= 2 zero). Non-trivial: an operand part of order >= 2 is non-zero (order-1 types and pure seeds: a non-zero non-unit first-order part) and 32*u*e <= 1e-3 * (summed term magnitude); distinct = distinct case fingerprints.".into()
+        "generated: (type from the 61-type registry incl. f32, static/dynamic vector, nested; function from the 29 elementary functions; real part from per-function strata incl. negative, tiny, large (atan2: 10% on an axis, 10% on a diagonal |y| = |x|; sin, cos, sin_cos, tan: one in seven at a multiple of pi/4 plus 0..1.5e-9); every derivative part from a mixture 0/+-1/dyadic/uniform/log-uniform; optional parts absent 25%, explicit zeros 10%). Oracle: the function applied in the independent group-nilsquare reference algebra with power-series recurrences, tolerance 32*u*e per part with e the running first-order rounding bound (summed magnitude of contributing terms). One case in ten takes the real part from the wide-magnitude stratum |x| = 10^e, e uniform in +-300/(d+1) (f32: +-36/(d+1)), d the total order of the type (2d+1 for nested types), where every true derivative is representable; one unary case in four is a pure first-order seed (all operand parts of order >= 2 zero). Non-trivial: an operand part of order >= 2 is non-zero (order-1 types and pure seeds: a non-zero non-unit first-order part) and 32*u*e <= 1e-3 * (summed term magnitude); distinct = distinct case fingerprints.".into()
     }
     fn assumptions() -> Vec<String> {
         vec![
